@@ -9,6 +9,12 @@ import (
 	"strings"
 	"time"
 
+	"archive/tar"
+	"bytes"
+	"io"
+
+	"github.com/pojntfx/stfs/pkg/config"
+	"github.com/pojntfx/stfs/pkg/zzverif/vsync"
 	"github.com/spf13/afero"
 	"stfsmc/model"
 	"stfsmc/rig"
@@ -25,6 +31,14 @@ type Op struct {
 
 func (o Op) String() string {
 	switch o.K {
+	case "archive":
+		return "archive[" + o.P + "]"
+	case "update":
+		return fmt.Sprintf("update %s replace=%d %s", o.P, o.N, strconv.Quote(o.C))
+	case "delete":
+		return "delete " + o.P
+	case "move":
+		return fmt.Sprintf("move %s %s", o.P, o.Q)
 	case "mkdir", "mkdirall", "remove", "removeall", "stat", "list", "read":
 		return fmt.Sprintf("%s %s", o.K, o.P)
 	case "put":
@@ -162,6 +176,26 @@ func ExecModel(m *model.FS, o Op) string {
 			}
 		}
 		return ""
+	case "archive":
+		for _, mb := range Members(o.P) {
+			m.RawSet(mb.Name, mb.Dir, Content(mb.C), mb.perm())
+		}
+		return ""
+	case "update":
+		if !m.RawUpdate(o.P, o.N == 1, Content(o.C), 0o640) {
+			return "" // an update record for a missing name is written but changes nothing
+		}
+		return ""
+	case "delete":
+		if !m.RawDelete(o.P) {
+			return "not-exist"
+		}
+		return ""
+	case "move":
+		if !m.RawMove(o.P, o.Q) {
+			return "src-missing"
+		}
+		return ""
 	case "stat", "read", "list":
 		p := model.Clean(o.P)
 		n, ok := m.N[p]
@@ -234,6 +268,36 @@ func ExecImpl(s *rig.Stack, o Op) error {
 			return werr
 		}
 		return cerr
+	case "archive":
+		mbs := Members(o.P)
+		i := 0
+		_, err := s.WriteOps.Archive(func() (config.FileConfig, error) {
+			if i >= len(mbs) {
+				return config.FileConfig{}, io.EOF
+			}
+			mb := mbs[i]
+			i++
+			return mb.fileConfig(), nil
+		}, s.Cfg.Level, false, false)
+		return err
+	case "update":
+		mb := Member{Name: o.P, C: o.C, Perm: 0o640}
+		if info, err := fsys.Stat(o.P); err == nil && info.IsDir() {
+			mb.Dir = true
+		}
+		done := false
+		_, err := s.WriteOps.Update(func() (config.FileConfig, error) {
+			if done {
+				return config.FileConfig{}, io.EOF
+			}
+			done = true
+			return mb.fileConfig(), nil
+		}, s.Cfg.Level, o.N == 1, false)
+		return err
+	case "delete":
+		return s.WriteOps.Delete(o.P)
+	case "move":
+		return s.WriteOps.Move(o.P, o.Q)
 	case "stat":
 		_, err := fsys.Stat(o.P)
 		return err
@@ -253,3 +317,61 @@ func ExecImpl(s *rig.Stack, o Op) error {
 }
 
 var _ afero.Fs
+
+// Member is one entry of a batched Archive call.
+type Member struct {
+	Name string
+	Dir  bool
+	C    string
+	Perm uint32
+}
+
+func (m Member) perm() uint32 {
+	if m.Perm != 0 {
+		return m.Perm
+	}
+	if m.Dir {
+		return 0o755
+	}
+	return 0o644
+}
+
+// MemberPool is the fixed pool the archive-level alphabet draws from.
+var MemberPool = map[string]Member{
+	"d":  {Name: "/d", Dir: true},
+	"e":  {Name: "/e", C: ""},
+	"f":  {Name: "/d/f", C: "hello"},
+	"g":  {Name: "/g", C: "T1300"},
+	"n":  {Name: "/d/n", C: "T512:3"},
+	"h":  {Name: "/h", C: "T511:5"},
+	"k":  {Name: "/k", C: "T513:7"},
+}
+
+// Members parses a comma separated list of pool ids.
+func Members(ids string) []Member {
+	out := []Member{}
+	for _, id := range strings.Split(ids, ",") {
+		if m, ok := MemberPool[id]; ok {
+			out = append(out, m)
+		}
+	}
+	return out
+}
+
+type rsc struct{ *bytes.Reader }
+
+func (rsc) Close() error { return nil }
+
+func (m Member) fileConfig() config.FileConfig {
+	data := Content(m.C)
+	hdr := &tar.Header{Typeflag: tar.TypeReg, Name: m.Name, Size: int64(len(data)), Mode: int64(m.perm()), Uid: os.Getuid(), Gid: os.Getgid(), ModTime: vsync.Now()}
+	if m.Dir {
+		hdr.Typeflag = tar.TypeDir
+		hdr.Size = 0
+	}
+	return config.FileConfig{
+		GetFile: func() (io.ReadSeekCloser, error) { return rsc{bytes.NewReader(data)}, nil },
+		Info:    hdr.FileInfo(),
+		Path:    m.Name,
+	}
+}
